@@ -242,6 +242,9 @@ func runC14(rc *RunCtx) {
 	rc.Cfg("max_versions", maxVersions)
 	rc.Cfg("cas_required", casRequired)
 	disk := NewDisk(s)
+	// second scheduling point per storage operation (effect vs. continuation) in a third of the runs
+	disk.PostGate = tp.Pick(3) == 2
+	rc.Cfg("post_gate", disk.PostGate)
 	h, err := BootCore(disk, opts)
 	if err != nil {
 		panic(err)
